@@ -3,7 +3,11 @@ import StraxModel.Generated.ShouldSave
 /-
   C11 — only what is missing is computed, and only what policy allows is saved.
 
-  All theorems are about `Strax.Components.getComponents` (model of `Context.get_components`) and hold for
+  Totality: `getComponents_ok_iff` / `errors_iff` say exactly when a request succeeds and when it ends in an
+  explicit error (hypotheses: `topoOrdered g` and unique providers `(allTypes g).Nodup`, both decidable, both
+  evaluated on every generated graph by the driver op `c11.topo`; they exclude cyclic graphs, where the real
+  `_get_plugins` recursion never returns, and graphs in which two plugins claim the same data type).
+  The other theorems are about `Strax.Components.getComponents` (model of `Context.get_components`) and hold for
   EVERY graph, stored state, target / save choice, modifier and context option for which the function returns
   normally — no hypothesis on the graph is needed for them: the `seen` guard makes the traversal well defined
   even on cyclic graphs.  Acyclicity (decidable witness `topoOrdered`: the list order is a topological order)
@@ -158,7 +162,11 @@ theorem partial_never_saves {env : Env} {c : Components} (h : getComponents env 
 
 /-! ### explicit errors -/
 
-/-- A needed, not stored data type whose creation is forbidden by the context (`forbid_creation_of` lists it
+/-- (Sufficient condition; `errors_iff` below is the exact characterisation.  The error raised at `t` itself is
+`DataNotAvailable`; the request may end in another kind only if an error raised earlier in the traversal wins: the
+`ValueError` of a NEVER-policy type listed in `save=` scanned before `t`, or a `KeyError`/one-letter `ValueError`
+raised before the traversal starts.)
+A needed, not stored data type whose creation is forbidden by the context (`forbid_creation_of` lists it
 or `*`; `starForbids` = `*` is listed and applies to this type), or that is always / as-target saved while a time range is requested, makes the request fail instead
 of being computed. -/
 theorem forbidden_raises {env : Env} {t : String} (hr : Reach env t) (hl : loadable env t = false)
@@ -192,7 +200,7 @@ theorem never_save_in_save_raises {env : Env} {t : String} {p : Plugin} (hr : Re
     obtain ⟨st, _, _, _, _, hstep, hseen⟩ := getComponents_spec hc
     obtain ⟨p', pol, hp', _, _, _, _, hnev⟩ := hstep.good t ((hseen t).2 hr) (by simp) hl
     rw [hp] at hp'; cases hp'
-    obtain ⟨b, hb⟩ := hnev ht
+    obtain ⟨b, hb⟩ := hnev.neverOk ht
     have hs' : t ∈ env.save := by simpa using hs
     simp [shouldSaveFor, hpol, shouldSave, hs'] at hb
 
@@ -202,6 +210,132 @@ def exGraph : Graph :=
 
 /-- `aa` is stored in the only frontend, `dd` is requested, `cc` is listed in `save=` -/
 def exEnv : Env := ⟨exGraph, [{ complete := ["aa"] }], ["dd"], ["cc"], {}, {}, {}⟩
+
+/-! ### exactly when a request succeeds and when it ends in an explicit error (totality) -/
+
+/-- `_get_plugins` succeeds: every data type in the dependency closure of the targets has a registered provider -/
+def Registered (env : Env) : Prop := resolveAll (resolve env.g (fuelFor env.g)) env.targets = .ok ()
+
+/-- every needed type has a registered provider once `_get_plugins` succeeded -/
+theorem registered_plugins {env : Env} (h : Registered env) {t : String} (hr : Reach env t) :
+    ∃ p, pluginFor env.g t = some p :=
+  res_plugin (reach_res h hr)
+
+/-- output `d` of plugin `p` has policy NEVER and is listed in `save=` -/
+def NeverListed (env : Env) (p : Plugin) (d : String) : Prop :=
+  p.policy d = some .never ∧ env.save.contains d = true
+
+/-- `_target_should_be_saved` raises exactly for a NEVER-policy type listed in `save=` -/
+theorem shouldSaveFor_ok_iff (env : Env) {p : Plugin} {d : String} (hd : d ∈ p.provides) :
+    (∃ b, shouldSaveFor env p d = .ok b) ↔ ¬ NeverListed env p d := by
+  obtain ⟨pol, hpol⟩ := policy_of_provides hd
+  unfold shouldSaveFor NeverListed
+  rw [hpol]
+  cases pol <;> cases hs : env.save.contains d <;> simp [shouldSave]
+
+/-- The needed, not stored type `t` may be created and scanning it raises nothing:
+  * the context does not forbid its creation (neither by name nor by `*`),
+  * no time range is requested, or its policy is NEVER / EXPLICIT (an always- or target-saved type is expected to
+    be stored when a time range is selected),
+  * unless `t` is a temporary merge type: `t` is not a NEVER-policy type listed in `save=`, and — when the request
+    is complete and the saver loop is reached (t is to be saved, or its plugin has several outputs) — none of the
+    not stored outputs of its plugin is a NEVER-policy type listed in `save=`. -/
+def Creatable (env : Env) (t : String) : Prop :=
+  ∃ p pol, pluginFor env.g t = some p ∧ p.policy t = some pol ∧
+    starForbids env t = false ∧ env.opts.forbid.contains t = false ∧
+    ¬ (env.mods.timeRange = true ∧ pol.toNat > SaveWhen.explicit.toNat) ∧
+    (isTemp t = false → ¬ NeverListed env p t ∧
+      (env.partialReq = false → (PolicySaves env p t ∨ p.multiOutput = true) →
+        ∀ d ∈ p.provides, loadable env d = false → ¬ NeverListed env p d))
+
+/-- `Creatable` is exactly the set of checks the traversal makes (`Good`) -/
+theorem creatable_iff_good (env : Env) (t : String) : Creatable env t ↔ Good env t := by
+  unfold Creatable Good
+  constructor
+  · rintro ⟨p, pol, hp, hpol, h1, h2, h3, hc⟩
+    refine ⟨p, pol, hp, hpol, h1, h2, h3, ?_⟩
+    have htp := pluginFor_provides hp
+    cases htemp : isTemp t with
+    | true => exact .inl htemp
+    | false =>
+      obtain ⟨hnl, hloop⟩ := hc htemp
+      obtain ⟨b, hb⟩ := (shouldSaveFor_ok_iff env htp).2 hnl
+      refine .inr ⟨b, hb, ?_⟩
+      cases hpart : env.partialReq with
+      | true => exact .inr (.inl rfl)
+      | false =>
+        cases hm : p.multiOutput with
+        | true =>
+          exact .inr (.inr fun d hd hl => (shouldSaveFor_ok_iff env hd).2 (hloop hpart (.inr hm) d hd hl))
+        | false =>
+          cases b with
+          | false => exact .inl ⟨rfl, rfl⟩
+          | true =>
+            exact .inr (.inr fun d hd hl => (shouldSaveFor_ok_iff env hd).2
+              (hloop hpart (.inl ((shouldSaveFor_true_iff env p t).1 hb)) d hd hl))
+  · rintro ⟨p, pol, hp, hpol, h1, h2, h3, hs⟩
+    refine ⟨p, pol, hp, hpol, h1, h2, h3, fun htemp => ?_⟩
+    have htp := pluginFor_provides hp
+    rcases hs with h | ⟨b, hb, hrest⟩
+    · rw [htemp] at h; cases h
+    · refine ⟨(shouldSaveFor_ok_iff env htp).1 ⟨b, hb⟩, fun hpart hcond d hd hl => ?_⟩
+      rcases hrest with ⟨hb0, hm0⟩ | hp1 | hall
+      · subst hb0
+        rcases hcond with hps | hm1
+        · have := (shouldSaveFor_true_iff env p t).2 hps
+          rw [hb] at this; cases this
+        · rw [hm0] at hm1; cases hm1
+      · rw [hpart] at hp1; cases hp1
+      · exact (shouldSaveFor_ok_iff env hd).1 (hall d hd hl)
+
+/-- **Totality.**  On an acyclic graph (topological order) with unique providers a request succeeds exactly when
+no target is a single letter, every type below the targets is registered, and every needed, not stored type is
+`Creatable`.  Together with `computed_iff` … this says: what is needed and missing is computed when nothing
+forbids it, and otherwise — and only otherwise — the request ends in an explicit error. -/
+theorem getComponents_ok_iff (env : Env) (htopo : topoOrdered env.g = true) (huniq : (allTypes env.g).Nodup) :
+    (∃ c, getComponents env = .ok c) ↔
+      (∀ t ∈ env.targets, t.length ≠ 1) ∧ Registered env ∧
+        ∀ t, Reach env t → loadable env t = false → Creatable env t := by
+  have hlen : env.targets.any (fun t => t.length == 1) = false ↔ ∀ t ∈ env.targets, t.length ≠ 1 := by
+    simp [List.any_eq_false]
+  constructor
+  · rintro ⟨c, hc⟩
+    obtain ⟨h1, h2, h3⟩ := getComponents_ok_conditions hc
+    exact ⟨hlen.1 h1, h2, fun t hr hl => (creatable_iff_good env t).2 (h3 t hr hl)⟩
+  · rintro ⟨h1, h2, h3⟩
+    exact getComponents_total htopo huniq (hlen.2 h1) h2 (fun t hr hl => (creatable_iff_good env t).1 (h3 t hr hl))
+
+/-- An explicit error is raised exactly when a target is a single letter, a type below the targets is not
+registered, or a needed, not stored type may not be created (forbidden by the context, always/target-saved under a
+time range) or makes `_target_should_be_saved` raise (NEVER policy × listed in `save=`). -/
+theorem errors_iff (env : Env) (htopo : topoOrdered env.g = true) (huniq : (allTypes env.g).Nodup) :
+    (∃ e, getComponents env = .error e) ↔
+      (∃ t ∈ env.targets, t.length = 1) ∨ ¬ Registered env ∨
+        ∃ t, Reach env t ∧ loadable env t = false ∧ ¬ Creatable env t := by
+  have hok := getComponents_ok_iff env htopo huniq
+  constructor
+  · rintro ⟨e, he⟩
+    by_cases h1 : ∃ t ∈ env.targets, t.length = 1
+    · exact .inl h1
+    by_cases h2 : Registered env
+    · by_cases h3 : ∃ t, Reach env t ∧ loadable env t = false ∧ ¬ Creatable env t
+      · exact .inr (.inr h3)
+      · exfalso
+        have : ∃ c, getComponents env = .ok c := hok.2 ⟨fun t ht hl => h1 ⟨t, ht, hl⟩, h2,
+          fun t hr hl => Classical.byContradiction fun hc => h3 ⟨t, hr, hl, hc⟩⟩
+        obtain ⟨c, hc⟩ := this
+        rw [he] at hc; cases hc
+    · exact .inr (.inl h2)
+  · intro h
+    cases hc : getComponents env with
+    | error e => exact ⟨e, rfl⟩
+    | ok c =>
+      exfalso
+      obtain ⟨h1, h2, h3⟩ := hok.1 ⟨c, hc⟩
+      rcases h with ⟨t, ht, hl⟩ | h | ⟨t, hr, hl, hn⟩
+      · exact h1 t ht hl
+      · exact h h2
+      · exact hn (h3 t hr hl)
 
 /-! ### several targets merged by the temporary plugin of `get_iter` (defects D22, D23 and their fixes) -/
 
@@ -282,6 +416,10 @@ theorem acyclic_no_recursion_error (env : Env) (h : topoOrdered env.g = true) :
 /-! ### non-vacuity: concrete instances of the hypotheses and of both outcomes -/
 
 example : topoOrdered exGraph = true := by decide
+example : (allTypes exGraph).Nodup := by decide
+example : Registered exEnv := by rfl
+example : ¬ Registered { exEnv with g := exGraph.drop 1 } := by
+  intro h; unfold Registered at h; exact absurd h (by rw [show resolveAll _ _ = Except.error Err.keyError from rfl]; simp)
 example : exEnv.partialReq = false := by decide
 /-- `aa` is loaded, `dd` and `bb` are computed, the not needed sibling `cc` is saved because it is listed -/
 example : getComponents exEnv = .ok ⟨[("aa", 0)], ["dd", "bb"], [("cc", [0])], ["dd"]⟩ := by rfl
